@@ -523,10 +523,13 @@ func (c *container) SetResourceUpdates(r *nri.LinuxResources) bool {
 func mergeNRIResources(u *nri.LinuxResources, orig *nri.LinuxResources) *nri.LinuxResources {
 	log.Debug("merging resource update %+v with fallback/orig %+v", u, orig)
 
+	if u == nil {
+		u = &nri.LinuxResources{}
+	}
 	if u.Cpu == nil {
 		u.Cpu = &nri.LinuxCPU{}
 	}
-	if orig.Cpu != nil {
+	if orig.GetCpu() != nil {
 		if u.Cpu.GetShares().GetValue() == 0 {
 			u.Cpu.Shares = nri.UInt64(orig.Cpu.Shares)
 		}
@@ -547,7 +550,7 @@ func mergeNRIResources(u *nri.LinuxResources, orig *nri.LinuxResources) *nri.Lin
 	if u.Memory == nil {
 		u.Memory = &nri.LinuxMemory{}
 	}
-	if orig.Memory != nil {
+	if orig.GetMemory() != nil {
 		if u.Memory.GetLimit().GetValue() == 0 {
 			u.Memory.Limit = nri.Int64(orig.Memory.Limit)
 		}
